@@ -17,7 +17,8 @@ RULE = (
     "TCPTransport.write over a local socket pair racing with a loss / a disconnect. The bodies run "
     "as real threads under sys.settrace; at every source line of mysensors/transport.py and mysensors/task.py the "
     "thread parks and the harness scheduler picks who runs next. ALL schedules with <= 2 pre-emptions (3 in the "
-    "thorough tier; one less for the three-thread producer scenario) are enumerated by stateless DFS, plus Hypothesis-drawn unbounded schedules. Oracle per "
+    "thorough tier; one less for the three-thread producer scenario) are enumerated by stateless DFS, plus Hypothesis-drawn unbounded schedules, "
+    "plus Hypothesis-drawn backlogs (up to 4 producers queue up to several thousand commands in drawn bursts while the pump is busy, then the real poll loop drains). Oracle per "
     "schedule: no exception leaves send / the poll loop; the writes recorded are [] or [cmd] (never twice, never "
     "partial); every write happened on a connection open at that instant; with several producers the multiset "
     "sent equals the multiset queued and queue order is preserved. Non-trivial = schedule with >= 1 pre-emption "
@@ -264,7 +265,77 @@ def random_schedules(args):
     return stats
 
 
+# -- backlog: many commands queued while the pump is busy ---------------------------------------------
+# No scheduler needed: the producers' add_job calls arrive in a drawn order while the pump sits in a slow write
+# (it simply does not run), then the real _poll_queue drains. Every queued command is sent exactly once, in
+# queue order - however long the queue got.
+
+backlog_cases = st.fixed_dictionaries({
+    "scenario": st.just("backlog"),
+    "bursts": st.lists(st.tuples(st.integers(0, 3), st.one_of(st.integers(1, 8), st.sampled_from([64, 255, 256, 257, 300, 1000, 1024, 2049]))), min_size=1, max_size=8),
+})
+
+
+def backlog(case, stats=None):
+    import mysensors
+    import mysensors.task as task
+    from mysensors import transport as mt
+
+    log = []
+    tr = mt.SyncTransport(None, lambda t: None)
+    tr.connect = lambda: None
+    gw = mysensors.BaseSyncGateway(tr, protocol_version="2.2")
+    tr.gateway = gw
+    tr.protocol.gateway = gw
+    tr.protocol.transport = FakeConnection("A", log)
+    order, counts = [], {}
+    for producer, length in case["bursts"]:
+        for _ in range(length):
+            counts[producer] = counts.get(producer, 0) + 1
+            cmd = f"{producer + 1};{producer + 1};1;0;24;{counts[producer]}\n"
+            gw.tasks.add_job(str, cmd)
+            order.append(cmd)
+
+    class FakeTime:  # pylint: disable=too-few-public-methods
+        @staticmethod
+        def sleep(_secs):
+            if not gw.tasks.queue:
+                gw.tasks._stop_event.set()  # pylint: disable=protected-access
+
+    saved = task.time
+    task.time = FakeTime
+    try:
+        gw.tasks._poll_queue()  # pylint: disable=protected-access
+    except Exception as exc:  # pylint: disable=broad-except
+        raise Violation(f"raises.backlog.{type(exc).__name__}", case, f"[backlog] the poll loop raised {type(exc).__name__}: {exc}") from exc
+    finally:
+        task.time = saved
+    wrote = [data.decode() for _, data, _ in log]
+    if wrote != order:
+        missing = [c for c in order if c not in set(wrote)]
+        dup = len(wrote) - len(set(wrote))
+        raise Violation(
+            "backlog_lost_or_reordered", case,
+            f"[backlog] {len(order)} commands queued by {len(counts)} producers while the pump was busy; {len(wrote)} written, {len(missing)} never sent (first: {missing[:1]}), {dup} duplicates"
+            + ("" if missing or dup else "; order differs from queue order"),
+        )
+    if stats is not None:
+        stats.case(f"backlog:{case['bursts']}" if len(counts) >= 2 and len(order) > 256 else None,
+                   {"scenario": "backlog", "bursts": case["bursts"], "queued": len(order)} if len(order) % 7 == 0 else None,
+                   labels=("backlog", "queued>256" if len(order) > 256 else "queued<=256"))
+
+
+def backlog_shard(args):
+    seed_value, n = args
+    common.setup_path()
+    stats = common.Stats()
+    common.run_given(stats, backlog_cases, lambda c: backlog(c, stats), n, seed_value, shrink=True)
+    return stats
+
+
 def check_case(case, stats=None):
+    if case.get("scenario") == "backlog":
+        return backlog(case, stats)
     run, ctx = sched.run_schedule(make_scenario(case["scenario"]), files(), case["schedule"])
     judge(run, ctx, stats, "replay")
 
@@ -286,6 +357,9 @@ def main(tier):
         run_.stats.merge(stats)
     n = 60 if tier == "quick" else 1000
     for stats in common.pool_map(random_schedules, [(common.shard_seed(common.seed(), i), n) for i in range(8)]):
+        run_.stats.merge(stats)
+    n = 40 if tier == "quick" else 600
+    for stats in common.pool_map(backlog_shard, [(common.shard_seed(common.seed(), 50 + i), n) for i in range(8)]):
         run_.stats.merge(stats)
     run_.extra["preemption_bound"] = bound
     return run_.finish()
